@@ -25,7 +25,7 @@ type engine struct{}
 func init() { harness.Register(engine{}) }
 
 func (engine) Name() string    { return "storesim" }
-func (engine) Props() []string { return []string{"C01", "C03", "C11", "C12", "C13", "C14"} }
+func (engine) Props() []string { return []string{"C01", "C03", "C04", "C11", "C12", "C13", "C14"} }
 
 func (e engine) Gen(prop, tier string, run int, r *simcore.Rand) *harness.Plan {
 	switch prop {
@@ -33,6 +33,8 @@ func (e engine) Gen(prop, tier string, run int, r *simcore.Rand) *harness.Plan {
 		return genC01(tier, run, r)
 	case "C03":
 		return genC03(tier, run, r)
+	case "C04":
+		return genC04(tier, run, r)
 	case "C11":
 		return genC11(tier, run, r)
 	case "C12":
@@ -132,6 +134,9 @@ func (e engine) Exec(rc *harness.RunCtx, p *harness.Plan) (out *harness.Outcome)
 	var cfg Config
 	if err := json.Unmarshal(p.Config, &cfg); err != nil {
 		return &harness.Outcome{Inconclusive: "bad config: " + err.Error()}
+	}
+	if p.Mode == "pack" {
+		return execC04(rc, p, &cfg)
 	}
 	if p.Mode == "concurrent" {
 		return execC14(rc, p, &cfg)
